@@ -175,10 +175,18 @@ def _package_call(fr: Frame, fi, e, args, kwargs, guard, stmt):
         try:
             res = ev.eval_function(fi, amap, fr.depth + 1)
             ev.inlined.add(fi.qualname)
+            # side effects of the callee on its parameters are side effects on the caller's arguments
+            alias = {}
+            for i, a in enumerate(e.args):
+                if i < len(pos) and isinstance(a, ast.Name):
+                    alias[pos[i]] = a.id
+            for kw in e.keywords:
+                if kw.arg is not None and isinstance(kw.value, ast.Name):
+                    alias[kw.arg] = kw.value.id
             for evn in res.events:
                 if evn.kind != "return":
-                    fr.events.append(Event(g_and(guard, evn.guard), evn.kind, f"{fi.qualname}:{evn.target}", evn.args,
-                                           evn.node, fr.havoc_depth))
+                    tgt = alias.get(evn.target, f"{fi.qualname}:{evn.target}") if ":" not in evn.target else evn.target
+                    fr.events.append(Event(g_and(guard, evn.guard), evn.kind, tgt, evn.args, evn.node, fr.havoc_depth))
             return res.value()
         except Unsupported as ex:
             ev.notes.append(f"not inlined {fi.qualname}: {ex}")
